@@ -179,6 +179,8 @@ type CertSpec struct {
 	CASig string `json:"ca_sig,omitempty"`
 	// Host: a host certificate instead of a user certificate
 	Host bool `json:"host,omitempty"`
+	// RawType, when non-zero, is the certificate type as is (values the protocol does not define included)
+	RawType uint32 `json:"raw_type,omitempty"`
 }
 
 // fixedAlgoSigner signs with one signature algorithm of its key, whatever the caller would negotiate.
@@ -226,6 +228,13 @@ func SKPub(label string) ssh.PublicKey {
 		panic(err)
 	}
 	return k
+}
+
+func certTypeOf(s CertSpec) uint32 {
+	if s.RawType != 0 {
+		return s.RawType
+	}
+	return certType(s.Host)
 }
 
 func certType(host bool) uint32 {
@@ -280,7 +289,7 @@ func Cert(s CertSpec) *ssh.Certificate {
 	c := &ssh.Certificate{
 		Key:             subject,
 		Serial:          s.Serial,
-		CertType:        certType(s.Host),
+		CertType:        certTypeOf(s),
 		KeyId:           s.KeyID,
 		ValidPrincipals: s.Principals,
 		ValidAfter:      s.ValidAfter,
